@@ -45,6 +45,7 @@ class Spec:
     offered: tuple = ()            # other suites offered in ClientHello besides the selected one
     use_rsa_label: bool = False    # <= 1.2: log the pre-master secret ("RSA <enc-pms-prefix> <pms>") - not generated (needs the encrypted PMS)
     keylog_extra: bool = True      # EXPORTER_SECRET etc. lines present
+    shuffle_exts: bool = False     # ServerHello extensions in random order
     master: bytes = None           # <= 1.2: use this master secret (a resumption shares it with the session it resumes; randoms are fresh)
     warn_alert: bool = False       # <= 1.2: the server sends a plaintext warning alert (unrecognized_name) right after its ServerHello record(s)
     cert_trap: bool = False        # Certificate body that reads as extensions 0x0016 / 0x002b=0304 to a parser that walks past the ServerHello
@@ -146,6 +147,15 @@ def build_conn(spec: Spec, rng) -> Conn:
     if v != 0x0300:
         for i in range(spec.extra_exts):
             se += ext(0x7000 + i, rb(rng.randrange(0, 9)))
+        if spec.shuffle_exts:
+            # extension order is free (RFC 5246 7.4.1.4): any of them - also an empty one such as encrypt_then_mac - may come last
+            parts, o = [], 0
+            while o < len(se):
+                n = 4 + int.from_bytes(se[o + 2:o + 4], "big")
+                parts.append(se[o:o + n])
+                o += n
+            rng.shuffle(parts)
+            se = b"".join(parts)
     sh = legacy + sr + bytes([len(sid)]) + sid + suite_b + b"\x00"
     has_ext = v == 0x0304 or (v != 0x0300 and spec.server_ext)
     if has_ext:
@@ -325,5 +335,6 @@ def random_spec(rng, version, code, nmax=40, big=True, avoid=()):
     s.keylog_extra = rng.random() < 0.7
     s.cert_trap = rng.random() < 0.3
     s.warn_alert = rng.random() < 0.15
+    s.shuffle_exts = rng.random() < 0.6
     classes = dict(pattern=pattern, nrec=len(app))
     return s, classes
